@@ -34,13 +34,23 @@ fn parse_header(header: &str) -> Result<Header, ParseError> {
         return Err(ParseError::HeaderTooLong);
     }
 
+    // Once the carriage return and the byte after it are present the header cannot grow anymore,
+    // so whatever is absent is invalid rather than missing.
+    let closed = header
+        .find(CARRIAGE_RETURN)
+        .map_or(false, |index| index + CARRIAGE_RETURN.len_utf8() < header.len());
+
     let mut iterator = header
         .splitn(PARTS, |c| c == SEPARATOR || c == CARRIAGE_RETURN)
         .peekable();
 
     let prefix = iterator.next().ok_or(ParseError::MissingPrefix)?;
 
-    if !prefix.is_empty() && PROTOCOL_PREFIX.starts_with(prefix) && header.ends_with(prefix) {
+    if !closed
+        && !prefix.is_empty()
+        && PROTOCOL_PREFIX.starts_with(prefix)
+        && header.ends_with(prefix)
+    {
         return Err(ParseError::Partial);
     } else if prefix != PROTOCOL_PREFIX {
         return Err(ParseError::InvalidPrefix);
@@ -49,7 +59,7 @@ fn parse_header(header: &str) -> Result<Header, ParseError> {
     let addresses = match iterator.next() {
         Some(TCP4) => {
             let (source_address, destination_address, source_port, destination_port) =
-                parse_addresses::<Ipv4Addr, _>(&mut iterator)?;
+                parse_addresses::<Ipv4Addr, _>(&mut iterator, closed)?;
 
             Addresses::Tcp4(IPv4 {
                 source_address,
@@ -60,7 +70,7 @@ fn parse_header(header: &str) -> Result<Header, ParseError> {
         }
         Some(TCP6) => {
             let (source_address, destination_address, source_port, destination_port) =
-                parse_addresses::<Ipv6Addr, _>(&mut iterator)?;
+                parse_addresses::<Ipv6Addr, _>(&mut iterator, closed)?;
 
             Addresses::Tcp6(IPv6 {
                 source_address,
@@ -87,7 +97,8 @@ fn parse_header(header: &str) -> Result<Header, ParseError> {
             return Err(ParseError::MissingProtocol)
         }
         Some(protocol)
-            if !protocol.is_empty()
+            if !closed
+                && !protocol.is_empty()
                 && header.ends_with(protocol)
                 && (TCP4.starts_with(protocol) || UNKNOWN.starts_with(protocol)) =>
         {
@@ -100,7 +111,11 @@ fn parse_header(header: &str) -> Result<Header, ParseError> {
     let newline = iterator
         .next()
         .filter(|s| !s.is_empty())
-        .ok_or(ParseError::MissingNewLine)?;
+        .ok_or(if closed {
+            ParseError::InvalidSuffix
+        } else {
+            ParseError::MissingNewLine
+        })?;
 
     if newline != NEWLINE || !header.ends_with(PROTOCOL_SUFFIX) {
         return Err(ParseError::InvalidSuffix);
@@ -115,16 +130,17 @@ fn parse_header(header: &str) -> Result<Header, ParseError> {
 /// Parses the addresses and ports from a PROXY protocol header for IPv4 and IPv6.
 fn parse_addresses<'a, T: FromStr<Err = AddrParseError>, I: Iterator<Item = &'a str>>(
     iterator: &mut Peekable<I>,
+    closed: bool,
 ) -> Result<(T, T, u16, u16), ParseError> {
-    let source_address = iterator.next().ok_or(ParseError::MissingSourceAddress)?;
-    let destination_address = iterator
-        .next()
-        .ok_or(ParseError::MissingDestinationAddress)?;
-    let source_port = iterator.next().ok_or(ParseError::MissingSourcePort)?;
+    // The fields a closed header lacks are empty, not pending.
+    let mut next = || iterator.next().or(closed.then_some(""));
+
+    let source_address = next().ok_or(ParseError::MissingSourceAddress)?;
+    let destination_address = next().ok_or(ParseError::MissingDestinationAddress)?;
+    let source_port = next().ok_or(ParseError::MissingSourcePort)?;
     // An empty last field with nothing after it has not been received yet.
-    let destination_port = iterator
-        .next()
-        .filter(|port| !port.is_empty() || iterator.peek().is_some())
+    let destination_port = next()
+        .filter(|port| closed || !port.is_empty() || iterator.peek().is_some())
         .ok_or(ParseError::MissingDestinationPort)?;
 
     let source_address = source_address
